@@ -3,7 +3,7 @@
    given coin schedule).  Proved: the layered Circuit with measurement layers computes exactly that trajectory for EVERY program, state and coin schedule; measurement
    layers stay in program order (no gate ever crosses one); one +-1 result per measured qubit, in order; the state stays a valid tableau.  The Born-rule content of
    a single measurement / post-selection is C06 (MeasureFacts); the model-level definitions of postselect and Circuit.backward are tied to the code by correspondence. *)
-From PC Require Import Model.Base Model.Pauli Model.Tableau Model.Circuit Model.Spec Proofs.CircuitFacts Proofs.MeasureCircuitFacts Proofs.TableauInv.
+From PC Require Import Model.Base Model.Pauli Model.Tableau Model.Circuit Model.Spec Proofs.CircuitFacts Proofs.MeasureCircuitFacts Proofs.TableauInv Proofs.MeasureFacts Proofs.ProjectionFacts.
 Open Scope Z_scope.
 
 Theorem C14_measurements_keep_program_order : forall prog,
@@ -42,3 +42,15 @@ Theorem C14_postselect_keeps_invariant : forall n t o, tableau_ok n t -> rk t = 
   tableau_ok n (fst (postselect1 t o)).
 Proof. exact postselect1_ok. Qed.
 Print Assumptions C14_postselect_keeps_invariant.
+(* post-selection of a signed Pauli on a pure state returns the Born probability of the requested outcome (code 2 = 1.0, 1 = 0.5, 0 = 0.0): 1 + <o>;
+   the state is projected (o becomes a stabilizer) when the probability is 1/2 and is unchanged when it is 1 or 0 *)
+Theorem C14_postselect_born_probability : forall n t o, tableau_ok n t -> rk t = 0%nat -> length (fst o) = n -> hermP o ->
+  snd (postselect1 t o) = 1 + expect1 t o.
+Proof. exact postselect1_born. Qed.
+Print Assumptions C14_postselect_born_probability.
+Theorem C14_postselect_projects_or_leaves_unchanged : forall n t o, tableau_ok n t -> rk t = 0%nat -> length (fst o) = n -> hermP o ->
+  let '(t', pr) := postselect1 t o in
+  (pr = 2 <-> in_group n t o) /\ (pr = 0 <-> in_group n t (pneg o)) /\ (pr = 2 \/ pr = 1 \/ pr = 0) /\
+  (pr = 1 -> in_group n t' o /\ expect1 t o = 0) /\ (pr <> 1 -> t' = t).
+Proof. exact postselect1_spec. Qed.
+Print Assumptions C14_postselect_projects_or_leaves_unchanged.
